@@ -105,7 +105,7 @@ type balWorld struct {
 }
 
 func balCensus() int {
-	return countStacks("provider.(*balanceChecker)") + countStacks("go-lifecycle.(*lifecycle).WatchContext") + countStacks("pubsub.(*bus).run")
+	return countStacks("provider.(*balanceChecker)", "go-lifecycle.(*lifecycle).WatchContext", "pubsub.(*bus).run")
 }
 
 func has(xs []string, x string) bool {
